@@ -1137,7 +1137,11 @@ impl<'p, W, R, T> CompilationScope<'p, W, R, T> {
                     new_types.push(if let XType::Auto = t.as_ref() {
                         match args {
                             None => return Err(CompilationError::AutoSpecializationWithoutCall),
-                            Some(args) => self.type_of(&args[i])?,
+                            // a `$` slot beyond the arguments of the call has nothing to take its type from
+                            Some(args) => match args.get(i) {
+                                Some(arg) => self.type_of(arg)?,
+                                None => return Err(CompilationError::AutoSpecializationWithoutArgument { index: i }),
+                            },
                         }
                     } else {
                         t.clone()
